@@ -148,7 +148,13 @@ def rule_dfs(A: Analysis, rep):
     hs = [h for h in walk_local(lt.node) if isinstance(h, ast.ExceptHandler)]
     ok = all(h.type is not None and norm(h.type) == "TaskNotFound" and any(isinstance(x, ast.Raise) and x.exc is not None and norm(x.exc).startswith("%s." % h.name) or
                                                                           (isinstance(x, ast.Raise) and x.exc is None) for x in h.body) for h in hs)
-    rep.check(ok, "DFS2", "TaskNotFound propagates", lt.node, "", "load_transitive_closure swallows or converts TaskNotFound")
+    gl = A.cfg(lt, "plain")
+    for h in hs:
+        hn = [n for n in gl.nodes if n.kind == "except" and n.ast is h][0]
+        body_ids = {id(x) for s_ in h.body for x in ast.walk(s_)}
+        out = [n for n in gl.reach([hn], skip_labels=is_exc) if n is not hn and (n.ast is None or id(n.ast) not in body_ids)]
+        ok = ok and not out
+    rep.check(ok, "DFS2", "TaskNotFound propagates", lt.node, "the handler only adds context and re-raises", "load_transitive_closure swallows or converts TaskNotFound (the handler can complete normally)")
     ls = A.fn(TI + "load_single_task")
     g = A.cfg(ls, "plain")
     rs = [n for n in g.nodes if n.kind == "stmt" and isinstance(n.ast, ast.Raise) and "TaskNotFound" in norm(n.ast)]
